@@ -59,6 +59,7 @@ for _p in preds:
     if _p["n"] > 0:
         _p["n"] += SHIFT
 preds.append({"id": "p", "kind": "tmp", "n": 1})  # 16 never stored: anchored at the zero time.Time (an anchor like any other)
+preds.append({"id": "/ub", "kind": "imm", "n": 0})  # 17 its identifier spells the node /u<b> (type followed by id): the hashed bytes of the two coincide
 # concrete predicate spellings: abs index + spelling index (0 for immutable)
 cpreds = []
 for i, p in enumerate(preds):
@@ -115,6 +116,7 @@ triples = [
     (3, 14, 16),  # 22 c q@[2525] p@[1492]
     (1, 1, 5),  # 23 a p@[]   p@[i2]   an IMMUTABLE triple whose object is a temporal predicate (filters on the object field)
     (2, 4, 9),  # 24 b q@[]   p@[i3]   ... and a second one, later anchor (latest on the object field)
+    (1, 17, 2),  # 25 a "/ub"@[] c   a predicate whose identifier spells a node that is the object of other triples of a
 ]
 # triples stored with a non-canonical spelling of their predicate's anchor: triple index -> spelling text
 stored_spelling = {7: "2020-06-01T05:30:00.5-07:00", 12: "2020-01-01T02:00:00+02:00", 18: "1492-10-12T10:00:00+02:00"}
